@@ -27,10 +27,20 @@ namespace M3d.Bd
 
 /-! ## Points and boxes -/
 
-abbrev Pt (α : Type) := Fin 3 → α
+/-- A coordinate: three slots (`Coord3D`; a 2D `Coord` leaves the third unused).  A structure, not a
+function, so that the executable side evaluates every coordinate once. -/
+structure Pt (α : Type) where
+  x : α
+  y : α
+  z : α
+
+/-- component `i` (`Array()[i]`) -/
+def Pt.get {α : Type} (p : Pt α) (i : Fin 3) : α := if i.val = 0 then p.x else if i.val = 1 then p.y else p.z
+
+instance {α : Type} : CoeFun (Pt α) (fun _ => Fin 3 → α) := ⟨Pt.get⟩
 
 /-- `XYZ(x, y, z)` (2D: `XY(x, y)` with an unused third slot). -/
-def mk3 {α : Type} (x y z : α) : Pt α := fun i => if i.val = 0 then x else if i.val = 1 then y else z
+def mk3 {α : Type} (x y z : α) : Pt α := ⟨x, y, z⟩
 
 structure Box (α : Type) where
   lo : Pt α
@@ -496,6 +506,11 @@ def rampContains (s : Solid α) (p1 p2 c : Pt α) : Bool :=
     let scale := scale / nn
     if 1 ≤ scale then s.f c
     else s.f (padd (padd (pscale (psub v (pscale axis scale)) (1 / scale)) (pscale axis scale)) p1)
+
+/-- `toolbox3d.Ramp{Solid: s, P1, P2}`: `Min/Max` of the repaired code include the axis end points
+(`r.Solid.Min().Min(r.P1).Min(r.P2)`). -/
+def rampS (s : Solid α) (p1 p2 : Pt α) : Solid α :=
+  ⟨true, ⟨pmin (pmin s.box.lo p1) p2, pmax (pmax s.box.hi p1) p2⟩, rampContains s p1 p2⟩
 
 /-! ## The deep embedding -/
 
